@@ -461,12 +461,12 @@ func (w *World) checkRound(P string, fn *ssa.Function) {
 					// distance to floor: the tie (== 0.5) must belong to the round-up side: >= or <
 					good := op == token.GEQ || op == token.LSS
 					idioms++
-					w.check(P, "R06.6", "round: tie test on the distance to the floor in "+g.Name(), x.Pos(), good, fmt.Sprintf("`x - floor(x) %s 0.5`: a tie must round up (>= or <)", op))
+					w.check(P, "R06.6", "round: tie test on the distance to the floor", x.Pos(), good, fmt.Sprintf("`x - floor(x) %s 0.5`: a tie must round up (>= or <)", op))
 				case isMathCall(sub.X, "math.Ceil"):
 					// distance to ceiling: the tie must stay at the ceiling: > or <=
 					good := op == token.GTR || op == token.LEQ
 					idioms++
-					w.check(P, "R06.6", "round: tie test on the distance to the ceiling in "+g.Name(), x.Pos(), good, fmt.Sprintf("`ceil(x) - x %s 0.5`: a tie must stay at the ceiling, i.e. round toward positive infinity (> or <=); with %s round(-1.5) is -2", op, op))
+					w.check(P, "R06.6", "round: tie test on the distance to the ceiling", x.Pos(), good, fmt.Sprintf("`ceil(x) - x %s 0.5`: a tie must stay at the ceiling, i.e. round toward positive infinity (> or <=); with %s round(-1.5) is -2", op, op))
 				default:
 					w.check(P, "R06.6", "round: unrecognised tie test in "+g.Name(), x.Pos(), false, "a comparison with 0.5 that is neither `x - floor(x)` nor `ceil(x) - x`: cannot decide which way ties go")
 				}
